@@ -349,7 +349,7 @@ def run(scratch, pid, tier, seed, names=None):
             for g, classes in held_at_gates(lk):
                 table.setdefault(g, set()).add(classes)
     # 2. schedules from TLC
-    maxpre, limit = (2, 40) if tier == "quick" else (3, 1500)
+    maxpre, limit = (2, 40) if tier == "quick" else (4, 4000)
     with ThreadPoolExecutor(max_workers=8) as ex:
         res = list(ex.map(lambda n: schedules(scratch, n, profs[n], maxpre, limit, seed), names))
     scripts, stats = [], []
